@@ -116,5 +116,6 @@ void harness (void)
 #endif
   if (!ret && L.corrupted) REACH("corrupt"); 
   if (!ret && !L.corrupted) REACH("oom");
-  if (!ret && !L.corrupted && M.n_unix_fds > 0) REACH("oom-after-fd-move");
+  /* an out-of-memory failure after the fd array was allocated (the descriptors must still be with the loader: fix in load_message, postC) */
+  if (!ret && !L.corrupted && M.unix_fds != NULL) REACH("oom-after-fd-array-allocated");
 }
